@@ -335,8 +335,108 @@ int main(int argc, char** argv) {
 
 ACCESSOR_CLASSES = ('ASAM_CMP_CanPayloadBase_', 'ASAM_CMP_LinPayload_', 'ASAM_CMP_EthernetPayload_', 'ASAM_CMP_AnalogPayload_', 'ASAM_CMP_CaptureModulePayload_', 'ASAM_CMP_InterfacePayload_')
 
+ENCODER_DRIVER = r'''
+using namespace ASAM::CMP;
+static int fails = 0;
+#define CHECK(c, ...) do { if (!(c)) { printf("VIOLATED: "); printf(__VA_ARGS__); printf("\n"); ++fails; } } while (0)
+struct Sent { uint8_t mt; uint8_t pt; std::vector<uint8_t> bytes; uint64_t ts; uint32_t ifid; uint16_t vendor; uint8_t flags; };
+static Packet mk(const Sent& s) { Packet p; Payload pl(PayloadType((CmpHeader::MessageType)s.mt, s.pt), s.bytes.data(), s.bytes.size()); p.setPayload(pl); p.setTimestamp(s.ts); p.setInterfaceId(s.ifid); p.setVendorId(s.vendor); p.setCommonFlags(s.flags); return p; }
+// independent frame walker: C07 C08 C09 C01 oracles over the raw frames
+static void walk(const std::vector<std::vector<uint8_t>>& frames, const std::vector<Sent>& sent, size_t mn, size_t mx, uint16_t dev, uint8_t stream, uint16_t firstSeq, const char* tag) {
+  size_t si = 0, pos = 0; int segstate = 0; uint16_t seq = firstSeq;
+  for (size_t f = 0; f < frames.size(); ++f) {
+    const auto& fr = frames[f];
+    CHECK(fr.size() >= mn && fr.size() <= mx && fr.size() >= 8, "%s frame %zu size %zu outside [%zu,%zu]", tag, f, fr.size(), mn, mx);
+    if (fr.size() < 8) return;
+    CHECK(fr[1] == 0 && ((fr[2] << 8) | fr[3]) == dev && fr[5] == stream, "%s frame %zu header identity", tag, f);
+    CHECK((uint16_t)((fr[6] << 8) | fr[7]) == seq, "%s frame %zu counter %u expected %u", tag, f, (fr[6] << 8) | fr[7], seq); seq = (uint16_t)(seq + 1);
+    size_t off = 8, msgs = 0; bool hasSeg = false;
+    while (off + 16 <= fr.size()) {
+      size_t len = (fr[off + 14] << 8) | fr[off + 15]; uint8_t pt = fr[off + 13];
+      if (pt == 0 && len == 0) break;   // padding
+      CHECK(off + 16 + len <= fr.size(), "%s frame %zu message at %zu declares %zu bytes beyond the frame", tag, f, off, len);
+      if (off + 16 + len > fr.size()) return;
+      CHECK(si < sent.size(), "%s more messages than packets", tag); if (si >= sent.size()) return;
+      const Sent& s = sent[si]; int seg = (fr[off + 12] >> 2) & 3;
+      CHECK(fr[4] == s.mt, "%s frame %zu announces type %u but carries a message of type %u", tag, f, fr[4], s.mt);
+      CHECK(!hasSeg, "%s frame %zu: message after a segment", tag, f);
+      CHECK(seg == 0 || msgs == 0, "%s frame %zu: segment not alone", tag, f);
+      bool needSeg = 16 + s.bytes.size() > mx - 8;
+      CHECK((seg != 0) == needSeg, "%s packet %zu (%zu bytes, max %zu): segmented=%d but needs segmentation=%d", tag, si, s.bytes.size(), mx, seg != 0, needSeg);
+      if (seg == 0) CHECK(segstate == 0 && len == s.bytes.size(), "%s unsegmented message with wrong length/state", tag);
+      if (seg == 1) CHECK(segstate == 0 && pos == 0, "%s first segment out of order", tag);
+      if (seg == 2 || seg == 3) CHECK(segstate != 0, "%s continuing segment without first", tag);
+      if (seg == 1 || seg == 2) CHECK(off + 16 + len == mx, "%s non-last segment does not fill the frame", tag);
+      CHECK(len >= 1, "%s empty message", tag);
+      CHECK(pos + len <= s.bytes.size() && memcmp(&fr[off + 16], s.bytes.data() + pos, std::min(len, s.bytes.size() - pos)) == 0, "%s packet %zu: payload bytes at %zu differ from the packet's bytes (segment copy)", tag, si, pos);
+      CHECK(pt == s.pt, "%s payload type", tag);
+      uint64_t ts = 0; for (int i = 0; i < 8; ++i) ts = (ts << 8) | fr[off + i]; CHECK(ts == s.ts, "%s timestamp", tag);
+      CHECK((fr[off + 12] & ~0x0C) == (s.flags & ~0x0C), "%s flags", tag);
+      pos += len; hasSeg = seg != 0; segstate = (seg == 1 || seg == 2) ? 1 : 0; ++msgs; off += 16 + len;
+      if (seg == 0 || seg == 3) { CHECK(pos == s.bytes.size(), "%s packet %zu incomplete: %zu of %zu bytes", tag, si, pos, s.bytes.size()); ++si; pos = 0; }
+    }
+    CHECK(msgs >= 1, "%s frame %zu (of %zu) holds no message", tag, f, frames.size());
+    for (size_t i = off; i < fr.size(); ++i) if (fr[i]) { CHECK(false, "%s frame %zu non-zero padding", tag, f); break; }
+    CHECK(fr.size() == std::max(off, mn), "%s frame %zu size %zu != max(used %zu, min %zu)", tag, f, fr.size(), off, mn);
+  }
+  CHECK(si == sent.size() && pos == 0, "%s %zu of %zu packets on the wire", tag, si, sent.size());
+}
+static void roundtrip(const std::vector<std::vector<uint8_t>>& frames, const std::vector<Sent>& sent, const char* tag) {
+  Decoder dec; std::vector<std::shared_ptr<Packet>> got;
+  for (auto& f : frames) { auto r = dec.decode(f.data(), f.size()); got.insert(got.end(), r.begin(), r.end()); }
+  CHECK(got.size() == sent.size(), "%s round trip: %zu packets decoded, %zu sent", tag, got.size(), sent.size());
+  for (size_t i = 0; i < got.size() && i < sent.size(); ++i) {
+    CHECK(got[i]->getPayloadLength() == sent[i].bytes.size() && memcmp(got[i]->getPayload().getRawPayload(), sent[i].bytes.data(), sent[i].bytes.size()) == 0, "%s round trip: packet %zu payload differs", tag, i);
+    CHECK(got[i]->getPayload().getMessageType() == (CmpHeader::MessageType)sent[i].mt, "%s round trip: packet %zu message type", tag, i);
+  }
+}
+int main(int argc, char** argv) {
+  size_t len = strtoull(argv[1], 0, 10), mx = strtoull(argv[2], 0, 10), mn = strtoull(argv[3], 0, 10); unsigned mt = atoi(argv[4]);
+  if (len < 1 || len > 65535 || mx < 25 || mx > 65559 || mn > mx || mt == 0) { printf("parameters outside the domain\n"); return 0; }
+  Sent big{(uint8_t)mt, 0xFE, std::vector<uint8_t>(len), 0x1122334455667788ull, 0xA1B2C3D4, 0x7788, 0x13};
+  for (size_t i = 0; i < len; ++i) big.bytes[i] = (uint8_t)(i * 7 + 3);
+  Sent small1{(uint8_t)(mt == 1 ? 3 : 1), 0xFD, {1, 2, 3}, 5, 6, 7, 0}, small2{(uint8_t)mt, 0xFC, {9, 8}, 1, 2, 3, 0x20};
+  DataContext ctx{mn, mx};
+  { Encoder e; e.setDeviceId(0x1234); e.setStreamId(0x56); auto p = mk(big);
+    auto f1 = e.encode(p, ctx); walk(f1, {big}, mn, mx, 0x1234, 0x56, 1, "[fresh encoder, single packet]"); roundtrip(f1, {big}, "[fresh encoder, single packet]");
+    uint16_t c = e.getSequenceCounter(); CHECK(c == (uint16_t)f1.size(), "reported counter %u after %zu frames", c, f1.size());
+    auto f2 = e.encode(p, ctx); walk(f2, {big}, mn, mx, 0x1234, 0x56, (uint16_t)(c + 1), "[second encode call on the same encoder]");
+    CHECK(f1.size() == f2.size(), "second call produced %zu frames, first %zu", f2.size(), f1.size()); }
+  { Encoder e; std::vector<Packet> batch{mk(small1), mk(big), mk(small2)};
+    auto f = e.encode(batch.begin(), batch.end(), ctx); walk(f, {small1, big, small2}, mn, mx, 0, 0, 1, "[batch: other type, packet, same type]"); roundtrip(f, {small1, big, small2}, "[batch]"); }
+  { Encoder e; std::vector<Packet> none; auto f = e.encode(none.begin(), none.end(), ctx); CHECK(f.empty(), "empty batch produced %zu frames", f.size()); }
+  printf("violations=%d\n", fails);
+  return fails ? 3 : 0;
+}
+'''
+
+def encoder_replay(doc, inp, r, work, root, repo):
+    """encoder obligations: the counterexample's parameters (payload length, max, min, message type) are replayed through the public API
+    in four scenarios (fresh encoder; second call on the same encoder; batch with type change; empty batch); an independent frame walker
+    and a decode round trip are the oracle"""
+    ln = fieldval(inp, '.payloadData.n', 0) & 0xFFFF
+    mx = fieldval(inp, '.maxBytesPerMessage', 0); mn = fieldval(inp, '.minBytesPerMessage', 0)
+    mt = (fieldval(inp, '.type.type', 0x0100) >> 8) & 0xFF
+    cands = []
+    if 1 <= ln <= 65535 and 25 <= mx <= 65559 and mn <= mx and mt: cands.append((ln, mx, mn, mt))
+    # generic probes around the fit / no-fit boundary when the counterexample state is mid-call and not API-reachable as such
+    for (l, m) in ((1, 25), (2, 25), (100, 64), (206, 100), (76, 100), (77, 100)): cands.append((l, m, 0 if not mn or mn > m else mn, mt or 1))
+    code = PRE + ENCODER_DRIVER
+    exe = build_driver(work, repo, 'drv_encoder', code)
+    doc['native_expected'] = 'violations=0 (independent frame walker + decode round trip)'
+    for k, (l, m, n0, t) in enumerate(cands):
+        argv = [str(l), str(m), str(n0), str(t)]
+        p = subprocess.run([exe] + argv, stdout=subprocess.PIPE, stderr=subprocess.PIPE, timeout=120)
+        if p.returncode != 0:
+            doc['native_call'] = f"Encoder scenarios with payload length {l}, max {m}, min {n0}, message type {t}" + (' (parameters of the counterexample)' if k == 0 and len(cands) > 6 else ' (boundary probe)')
+            doc['native_observed'] = p.stdout.decode()[-1500:]; doc['native_stderr'] = p.stderr.decode()[-600:]
+            doc['native'] = 'reproduced'; doc['replay_driver'] = code; doc['replay_argv'] = argv
+            return
+    doc['native'] = 'not-reproduced'; doc['replay_driver'] = code; doc['replay_argv'] = [str(x) for x in cands[0]]
+
 def family_of(r, root):
     name = r['name']
+    if 'Encoder_' in (r['enforce'] or '') or name.startswith('lemma_') and 'batch' in name: return encoder_replay
     if (r['enforce'] or '') in VALIDATORS: return validator_replay
     if name == 'h_' + (r['enforce'] or '') and (r['enforce'] or '').startswith(ACCESSOR_CLASSES) and re.search(r'_get(Data|SamplesCount|DeviceDescription|SerialNumber|HardwareVersion|SoftwareVersion|VendorData\w*|StreamIds\w*)$', r['enforce']): return clause_replay
     if (r['enforce'] or '').endswith('Packet_create') or 'Packet_ctor__CmpHeader_MessageType' in (r['enforce'] or ''): return packet_kind_replay
